@@ -44,6 +44,7 @@ def cases(tier, seed):
                  'mem_rd_to_wraddr', 'mem_rd_to_wrdata', 'mem_two_rd_feedback'):
         out.append({'fam': 'GRAPH', 'kind': name, 'k': 'timing'})
         out.append({'fam': 'GRAPH', 'kind': name, 'k': 'paths'})
+    out = [dict(c, wb='foreign' if i % 3 == 1 else 'same') for i, c in enumerate(out)]
     for tech in (130, 65, 45, 250):
         for ff in (None, 0, 100, 383):
             out.append({'k': 'max_freq', 'tech': tech, 'ff': ff})
@@ -223,6 +224,8 @@ def run_timing(case, ob, site):
         return
     funcs, cache = delay_funcs()
     with stubs(analysis, max=zmax):
+        if case.get('wb') == 'foreign':
+            pyrtl.set_working_block(_decoy(), no_sanity_check=True)
         paths = explore(lambda: analysis.TimingAnalysis(block=block, gate_delay_funcs=funcs))
     ob.paths += len(paths)
     producers = {}
@@ -367,6 +370,15 @@ def smt_paths(block, src, dst, returned):
     return missing, extra, nets
 
 
+def _decoy():
+    b = pyrtl.Block()
+    with pyrtl.set_working_block(b, no_sanity_check=True):
+        x = pyrtl.Input(2, 'x_other')
+        y = pyrtl.Output(2, 'y_other')
+        y <<= ~x
+    return b
+
+
 def run_paths(case, ob, site):
     block = designs.build(case)
     if len(block.logic) > 14:
@@ -374,10 +386,27 @@ def run_paths(case, ob, site):
         return
     srcs = sorted(block.wirevector_subset((pyrtl.Input, pyrtl.Register)), key=lambda w: w.name)
     dsts = sorted(block.wirevector_subset((pyrtl.Output, pyrtl.Register)), key=lambda w: w.name)
+    if case.get('wb') == 'foreign':      # the block is passed as block= while an unrelated block is the working block
+        pyrtl.set_working_block(_decoy(), no_sanity_check=True)
     res = analysis.paths(srcs, dsts, block=block)
+    if (len(srcs) + len(dsts)) % 2 == 0:
+        # the single-wire call forms and the default dst (all Outputs) must agree with the batch call
+        for s_ in srcs[:2]:
+            one = analysis.paths(s_, None, block=block)
+            outs_ = sorted(block.wirevector_subset(pyrtl.Output), key=lambda w: w.name)
+            same = set(one.keys()) == {s_} and set(one[s_].keys()) == set(outs_) and all(
+                sorted(tuple(id(n) for n in p) for p in one[s_][o_]) == sorted(tuple(id(n) for n in p) for p in res[s_][o_]) for o_ in outs_)
+            ob.fact('paths(src)-default-dst-equals-batch-call:%s' % s_.name, same, site + ':call-forms')
+    weight = lambda net: 1 + 3 * len(net.args) + (7 if net.op in 'm@' else 0)
     for s_ in srcs:
         for d_ in dsts:
             got = res[s_][d_]
+            # distance(): the same paths, each mapped to the sum of f over its nets
+            dist = analysis.distance(s_, d_, weight, block=block)
+            want = {tuple(id(n) for n in p): sum(weight(n) for n in p) for p in got}
+            have = {tuple(id(n) for n in k_): v_ for k_, v_ in dist.items()}
+            ob.fact('distance-sums-f-over-each-path:%s->%s' % (s_.name, d_.name), have == want, site + ':distance',
+                    detail={'src': s_.name, 'dst': d_.name})
             missing, extra, nets = smt_paths(block, s_, d_, got)
             ob.n += 1
             ob.paths += 1
